@@ -1,6 +1,7 @@
 SPECIFICATION Spec
 CONSTANTS
   MaxSigs = 1
+  MaxSteps = 1
   Tools = {"none"}
 INVARIANT NeverAuthorized
 VIEW View
